@@ -29,6 +29,7 @@ import (
 type storeJ struct {
 	ID     uint64      `json:"id"`
 	Labels [][2]string `json:"labels"`
+	State  int         `json:"state,omitempty"` // metapb.StoreState: 0 Up, 1 Offline, 2 Tombstone (FitRegion must not look at it)
 }
 type consJ struct {
 	Key    string   `json:"key"`
@@ -80,7 +81,7 @@ func mkStores(ss []storeJ) *storeSet {
 		for _, l := range s.Labels {
 			ls = append(ls, &metapb.StoreLabel{Key: l[0], Value: l[1]})
 		}
-		si := core.NewStoreInfo(&metapb.Store{Id: s.ID, Labels: ls})
+		si := core.NewStoreInfo(&metapb.Store{Id: s.ID, Labels: ls, State: metapb.StoreState(s.State)})
 		out.list = append(out.list, si)
 		if _, dup := out.byID[s.ID]; !dup {
 			out.byID[s.ID] = si // first wins, as find_store in the model
@@ -264,6 +265,20 @@ func genStores(r *rng.R, malformed bool) []storeJ {
 			}
 		}
 		out = append(out, s)
+	}
+	// store states: the fit of a region does not depend on them (a peer on an Offline or Tombstone store still
+	// counts for its rule until it is moved); 12%: every store is Offline / Tombstone, 18%: some are
+	switch r.Pick(70, 12, 18) {
+	case 1:
+		for i := range out {
+			out[i].State = 1 + r.Intn(2)
+		}
+	case 2:
+		for i := range out {
+			if r.Pct(45) {
+				out[i].State = 1 + r.Intn(2)
+			}
+		}
 	}
 	return out
 }
@@ -561,7 +576,7 @@ func managerSetup(c *caseJ) (*placement.RuleManager, *core.BasicCluster) {
 		for _, l := range s.Labels {
 			ls = append(ls, &metapb.StoreLabel{Key: l[0], Value: l[1]})
 		}
-		bc.PutStore(core.NewStoreInfo(&metapb.Store{Id: s.ID, Labels: ls}))
+		bc.PutStore(core.NewStoreInfo(&metapb.Store{Id: s.ID, Labels: ls, State: metapb.StoreState(s.State)}))
 	}
 	m := placement.NewRuleManager(core.NewStorage(kv.NewMemoryKV()), nil)
 	if err := m.Initialize(3, []string{"zone", "host"}); err != nil {
@@ -707,6 +722,20 @@ func main() {
 		R.Count(fmt.Sprintf("rules:%d", len(c.Rules)))
 		R.Count(fmt.Sprintf("peersA:%d", len(c.A.Peers)))
 		R.Count(fmt.Sprintf("stores:%d", len(c.Stores)))
+		notUp := 0
+		for _, st := range c.Stores {
+			if st.State != 0 {
+				notUp++
+			}
+		}
+		switch {
+		case notUp == 0:
+			R.Count("store-states:all-up")
+		case notUp == len(c.Stores):
+			R.Count("store-states:none-up")
+		default:
+			R.Count("store-states:mixed")
+		}
 		for _, r := range c.Rules {
 			R.Count("role:" + r.Role)
 			for _, k := range r.Cons {
